@@ -190,6 +190,12 @@ class SimBridge:
         self.calls_since_wait = 0
         self.none_output = none_output
         self.gpu = {(w[0], w[1]): w[2] for w in ws}
+        # non-atomic task bodies (Model/CtrlN.lean): a started body publishes its outputs one at a time, in index order,
+        # as separate environment steps; `ran`/`produced` keep the base model's meaning (set when the body starts)
+        self.running = {}                                 # t -> [w, values, next index]
+        self.yielded = set()                              # datasets really handed to a host's store
+        self.atomic = rng.random() < 0.25                 # a quarter of the runs: bodies publish everything at once
+        self.max_running = 0
 
     def flag(self, kind, detail):
         self.viol.append((kind, detail))
@@ -216,6 +222,8 @@ class SimBridge:
             for d in map(tuple, inputs_of(self.spec["tasks"][t])):
                 if d not in self.produced:
                     self.flag("C02 input-not-produced", [t, d])
+                elif d not in self.yielded:
+                    self.flag("C02 input-not-published", [t, d])
                 if (w[0], d) in self.purged:
                     self.flag("C04 input-purged-on-target", [t, d, w[0]])
                 if d not in self.present[w[0]] and not any(o[0] == "transmit" and o[1] == d and o[3] == w[0] for o in self.outstanding):
@@ -249,6 +257,8 @@ class SimBridge:
         for i, t in enumerate(self.spec["tasks"]):
             if list(d) in t["params"] and i not in self.ran:
                 self.flag("C04 purge-before-consumer-done", [d, i])
+            elif list(d) in t["params"] and i in self.running:
+                self.flag("C04 purge-while-consumer-running", [d, i, self.running[i][2]])
         if list(d) in self.spec["ext"] and d not in self.delivered:
             self.flag("C04 purge-before-output-delivered", [d])
         for (w, t) in self.queued:
@@ -266,9 +276,22 @@ class SimBridge:
         for (w, t) in self.queued:
             if all(tuple(d) in self.present[w[0]] for d in inputs_of(self.spec["tasks"][t])):
                 acts.append(("run", w, t))
+        for t in self.running:
+            acts.append(("yield", t))
         for o in self.outstanding:
             acts.append(("io", o))
         return acts
+
+    def do_yield(self, t):
+        w, vals, k = self.running[t]
+        self.present[w[0]][(t, k)] = vals[k]
+        self.yielded.add((t, k))
+        self.pending.append(("pubW", w[0], w[1], t, k))
+        self.trace.append({"op": "env", "yield": [t, k]})
+        if k + 1 == len(vals):
+            del self.running[t]
+        else:
+            self.running[t][2] = k + 1
 
     def do_step(self, a):
         if a[0] == "run":
@@ -276,11 +299,18 @@ class SimBridge:
             self.queued.remove((w, t))
             self.ran.add(t)
             args = [self.present[w[0]][tuple(d)] for d in inputs_of(self.spec["tasks"][t])]
-            for k in range(self.spec["tasks"][t]["nOut"]):
-                self.present[w[0]][(t, k)] = sem(t, k, args)
+            n = self.spec["tasks"][t]["nOut"]
+            for k in range(n):
                 self.produced.add((t, k))
-                self.pending.append(("pubW", w[0], w[1], t, k))
             self.trace.append({"op": "env", "run": [w[0], w[1], t]})
+            if n > 0:
+                self.running[t] = [w, [sem(t, k, args) for k in range(n)], 0]
+                self.max_running = max(self.max_running, len(self.running))
+            if self.atomic:
+                while t in self.running:
+                    self.do_yield(t)
+        elif a[0] == "yield":
+            self.do_yield(a[1])
         else:
             o = a[1]
             self.outstanding.remove(o)
@@ -517,11 +547,30 @@ def run_case(spec, ws, seed, fifo, none_output=None, max_rounds=None, alarm_s=60
     res["stats"] = {"tasks": len(spec["tasks"]), "hosts": len({w[0] for w in ws}), "workers": len(ws),
                     "transmits": sum(1 for x in trace if x.get("op") == "env" and x.get("io", [""])[0] == "transmit"),
                     "fetches": sum(1 for x in trace if x.get("op") == "env" and x.get("io", [""])[0] == "fetch"),
-                    "purges": sum(1 for x in trace if x.get("op") == "round" for c in x.get("impl", {}).get("cmds", []) if c[0] == "purge")}
+                    "purges": sum(1 for x in trace if x.get("op") == "round" for c in x.get("impl", {}).get("cmds", []) if c[0] == "purge"),
+                    "atomic_bodies": br.atomic, "max_running": br.max_running,
+                    # controller rounds that happened while some body was between two of its outputs
+                    "rounds_while_running": _rounds_while_running(trace, spec)}
     return res
 
 
 # ----------------------------------------------------------------------------- oracles (from the property texts)
+
+def _rounds_while_running(trace, spec):
+    running, n = {}, 0
+    for x in trace:
+        if x.get("op") == "env" and "run" in x:
+            running[x["run"][2]] = 0
+        elif x.get("op") == "env" and "yield" in x:
+            t, k = x["yield"]
+            if k + 1 == spec["tasks"][t]["nOut"]:
+                running.pop(t, None)
+            else:
+                running[t] = k + 1
+        elif x.get("op") in ("round", "deliver") and any(k > 0 for k in running.values()):
+            n += 1
+    return n
+
 
 def oracle(res, fifo):
     """List of (property, kind, detail) failures of this run on the REAL controller."""
